@@ -18,11 +18,17 @@ package main
 //	       kr:<coin>                 collateral return (Babbage+)
 //	       kt:<n>                    total collateral (Babbage+)
 //	       c:sreg | c:sdereg | c:sdeleg | c:pret
+//	       c:gen                     genesis key delegation (Shelley..Babbage)
+//	       c:mir:<r|p>:<amt>         move instantaneous rewards (Shelley..Babbage): r = from the reserves to a
+//	                                 reward account, p = from the treasury to the other pot
 //	       c:preg:<n|o|r>:<id>       pool registration: n = pool not registered in the state, o = registered,
 //	                                 r = registered with a pending retirement (still holds its deposit)
 //	       c:reg:<amt> | c:unreg:<amt>:<recorded> | c:srd:<amt> | c:vrd:<amt> | c:svrd:<amt>
 //	       c:dreg:<amt> | c:dunreg:<amt>:<recorded> | c:vdeleg      (Conway+)
-//	out: decode-err | pure=<1|0> vc=<ok|vnc|baddep> bad=<0|1> dep=<0|1>
+//	out: decode-err | pure=<1|0> next=<ok|vnc|bad|countN|-> vc=<ok|vnc|baddep> bad=<0|1> dep=<0|1>
+//	     next = verdict of a follow-up transaction that spends everything Produced() reports into
+//	            outputs carrying the values the op states (ok = balanced, all inputs resolve;
+//	            - = nothing is produced)
 //	     pure = 1 iff validating the same decoded transaction a second time gives the same
 //	            verdicts and the transaction's and the state's reported values (outputs,
 //	            Produced(), stored bytes, mint, UTxOs) are unchanged by validation
@@ -177,6 +183,9 @@ func genC27(r *Rand, n int, tier string, emit func(string)) {
 		newPools := map[int]bool{}
 		for j := 0; j < nc; j++ {
 			kinds := []string{"sreg", "sdereg", "sdeleg", "preg", "preg", "pret"}
+			if ei < 5 {
+				kinds = append(kinds, "gen", "mir")
+			}
 			if ei >= 5 {
 				kinds = append(kinds, "reg", "unreg", "srd", "vrd", "svrd", "dreg", "dunreg", "vdeleg", "reg", "unreg")
 			}
@@ -200,8 +209,14 @@ func genC27(r *Rand, n int, tier string, emit func(string)) {
 				add(&consumed, kd)
 				add(&consumedC, kd)
 				items = append(items, "c:sdereg")
-			case "sdeleg", "pret", "vdeleg":
+			case "sdeleg", "pret", "vdeleg", "gen":
 				items = append(items, "c:"+k)
+			case "mir":
+				m := Pick(r, uint64(1+r.Intn(1000000)), r.EdgeU64()>>1, kd, pd)
+				items = append(items, fmt.Sprintf("c:mir:%s:%d", Pick(r, "r", "p"), m))
+				if r.Chance(1, 4) {
+					add(&consumedC, m) // as a rule that mistook the transfer for a refund would balance
+				}
 			case "preg":
 				id := r.Intn(3)
 				isNew := r.Chance(2, 5)
@@ -436,7 +451,8 @@ func runC27(op string) string {
 	}
 	ins, outs, certs, props, colls := [][]byte{}, [][]byte{}, [][]byte{}, [][]byte{}, [][]byte{}
 	var mintB []c27Entry
-	var collRet []byte
+	var collRet, collRetVal []byte
+	outVals := [][]byte{} // the value of each output exactly as the op states it
 	var totalColl *uint64
 	wkv := [][]byte{}
 	utxos := []common.Utxo{}
@@ -499,6 +515,7 @@ func runC27(op string) string {
 				return "bad-op"
 			}
 			collRet = cbArray(cbBytes(g1Addr(7)), cbUint(num(1)))
+			collRetVal = val(num(1), nil)
 		case "kt":
 			if ei < 4 {
 				return "bad-op"
@@ -519,6 +536,7 @@ func runC27(op string) string {
 				}
 			}
 			outs = append(outs, cbArray(cbBytes(g1Addr(7)), val(num(1), b)))
+			outVals = append(outVals, val(num(1), b))
 		case "m":
 			b, ok := c27ParseBundle(p[1])
 			if !ok || ei < 2 || mintB != nil {
@@ -554,6 +572,24 @@ func runC27(op string) string {
 				certs = append(certs, cbArray(cbUint(2), cred, pool))
 			case "pret":
 				certs = append(certs, cbArray(cbUint(4), pool, cbUint(300)))
+			case "gen":
+				if ei >= 5 {
+					return "bad-op"
+				}
+				vrf := make([]byte, 32)
+				vrf[0] = 0x55
+				certs = append(certs, cbArray(cbUint(5), cbBytes(c27Hash28(0xe0, 1)), cbBytes(c27Hash28(0xe1, 1)), cbBytes(vrf)))
+			case "mir":
+				if ei >= 5 || len(p) != 4 {
+					return "bad-op"
+				}
+				if p[2] == "r" {
+					certs = append(certs, cbArray(cbUint(6), cbArray(cbUint(0), cbMap(cred, cbUint(num(3))))))
+				} else if p[2] == "p" {
+					certs = append(certs, cbArray(cbUint(6), cbArray(cbUint(1), cbUint(num(3)))))
+				} else {
+					return "bad-op"
+				}
 			case "preg":
 				if len(p) != 4 {
 					return "bad-op"
@@ -619,7 +655,8 @@ func runC27(op string) string {
 	if don > 0 {
 		kv = append(kv, cbUint(22), cbUint(don))
 	}
-	raw := g1Envelope(era, cbMap(kv...), cbMap(), valid, nil, 0, 0)
+	bodyBytes := cbMap(kv...)
+	raw := g1Envelope(era, bodyBytes, cbMap(), valid, nil, 0, 0)
 	tx, derr := g1DecodeTx(era, raw)
 	if derr != nil {
 		return "decode-err"
@@ -679,7 +716,70 @@ func runC27(op string) string {
 		pure = 0
 	}
 	_ = conway.UtxoValidationRules
-	return fmt.Sprintf("pure=%d %s", pure, v1)
+	// Follow-up transaction: the UTxO objects the (validated) transaction reports as
+	// Produced() are put into a fresh ledger state and ALL spent by a second transaction of
+	// the same era whose outputs carry exactly the values the op states (valid: one per
+	// output, in order; phase-2-invalid: the collateral return at index |outputs|). Its
+	// inputs are addressed by the transaction id computed here from the body bytes, so the
+	// produced ids must be (blake2b256(body), index). The second transaction balances iff
+	// what was produced is exactly the outputs.
+	next := "-"
+	expVals := outVals
+	firstIdx := 0
+	if !valid {
+		expVals = nil
+		if collRetVal != nil {
+			expVals = [][]byte{collRetVal}
+			firstIdx = len(outVals)
+		}
+	}
+	if len(expVals) > 0 {
+		txid := common.Blake2b256Hash(bodyBytes).Bytes()
+		ins2, outs2 := [][]byte{}, [][]byte{}
+		for i, v := range expVals {
+			ins2 = append(ins2, cbArray(cbBytes(txid), cbUint(uint64(firstIdx+i))))
+			outs2 = append(outs2, cbArray(cbBytes(g1Addr(9)), v))
+		}
+		body2 := cbMap(cbUint(0), cbArray(ins2...), cbUint(1), cbArray(outs2...), cbUint(2), cbUint(0), cbUint(3), cbUint(1000))
+		tx2, derr2 := g1DecodeTx(era, g1Envelope(era, body2, cbMap(), true, nil, 0, 0))
+		if derr2 != nil {
+			next = "decode-err"
+		} else {
+			var produced []common.Utxo
+			func() {
+				defer func() {
+					if e := recover(); e != nil {
+						next = "panic"
+					}
+				}()
+				produced = tx.Produced()
+			}()
+			ls2 := mockledger.NewLedgerStateBuilder().WithUtxos(produced).WithNetworkId(1).Build()
+			if next != "panic" {
+				next = "ok"
+				for _, rule := range g1Rules(era) {
+					e := safeRule(rule, tx2, 10, ls2, pp)
+					if e == nil {
+						continue
+					}
+					var e1 shelley.ValueNotConservedUtxoError
+					var e3 shelley.BadInputsUtxoError
+					switch {
+					case errors.As(e, &e3):
+						next = "bad"
+					case errors.As(e, &e1):
+						if next == "ok" {
+							next = "vnc"
+						}
+					}
+				}
+				if len(produced) != len(expVals) {
+					next = fmt.Sprintf("count%d", len(produced))
+				}
+			}
+		}
+	}
+	return fmt.Sprintf("pure=%d next=%s %s", pure, next, v1)
 }
 
 // c27IsIncorrectDeposit recognises conway.IncorrectCertificateDepositError by type name,
